@@ -16,7 +16,7 @@ import enum
 
 from . import sym
 from .sym import SInt, SBool, Unsupported, is_sym, is_intlike, OPAQUE, BitLength
-from .values import (SObj, BoundMethod, SuperProxy, Closure, GenObj, CoroObj, SBytes, mk_bytes, SymSet,
+from .values import (AbstractValue, SObj, BoundMethod, SuperProxy, Closure, GenObj, CoroObj, SBytes, mk_bytes, SymSet,
                      class_of, contains_sym, set_interp, values_equal, next_serial)
 from .path import RaiseEx, Infeasible, PathEnd
 from .spec import And, Or, Not, ite, SpecRaise, AnyOf
@@ -327,6 +327,8 @@ class Interp:
             return len(v.items) != 0
         if isinstance(v, SymSet):
             return Or([c for _, c in v.elements()])
+        if isinstance(v, AbstractValue):
+            return v.py_truth(self)
         if isinstance(v, BitLength):
             return v > 0
         if isinstance(v, (GenObj, Closure, BoundMethod)):
@@ -421,6 +423,8 @@ class Interp:
             return models.assoc_attr(self, obj, name)
         if isinstance(obj, SymSet):
             return models.symset_attr(self, obj, name)
+        if isinstance(obj, AbstractValue):
+            return obj.py_getattr(self, name)
         if isinstance(obj, models.SymList):
             if name == "append":
                 return obj.append
@@ -1650,6 +1654,8 @@ class Interp:
         if isinstance(container, SObj):
             r = self.call_dunder(container, "__contains__", item)
             return self.truth(r)
+        if isinstance(container, AbstractValue):
+            return container.py_contains(self, item)
         if isinstance(container, AnyOf) or isinstance(item, AnyOf):
             raise Unsupported("membership on an unspecified value")
         if isinstance(container, (list, tuple)):
